@@ -9,6 +9,7 @@ import (
 	gogoproto "github.com/gogo/protobuf/proto"
 	"google.golang.org/protobuf/proto"
 	"google.golang.org/protobuf/reflect/protoreflect"
+	"google.golang.org/protobuf/reflect/protoregistry"
 )
 
 // fresh deep copy through the runtime (never copies the size cache), marshaled by the generated code
@@ -49,6 +50,11 @@ func navigate(root protoreflect.Message, path string) protoreflect.Message {
 	for _, t := range strings.Split(path, ".") {
 		n, _ := strconv.Atoi(t)
 		fd := cur.Descriptor().Fields().ByNumber(protoreflect.FieldNumber(n))
+		if fd == nil {
+			if xt, err := protoregistry.GlobalTypes.FindExtensionByNumber(cur.Descriptor().FullName(), protoreflect.FieldNumber(n)); err == nil {
+				fd = xt.TypeDescriptor()
+			}
+		}
 		if fd == nil || fd.Kind() != protoreflect.MessageKind || fd.IsList() || fd.IsMap() || !cur.Has(fd) {
 			return nil
 		}
@@ -58,8 +64,10 @@ func navigate(root protoreflect.Message, path string) protoreflect.Message {
 }
 
 // HI: an operation history on one message.  Tokens:
-//   S:<path>:<num>:<hex>  assign field num of the message at path from the message encoded by hex (cleared when hex does not set it)
-//   Z size   M marshal   T marshal-to(make(Size()))   RS runtime size   U:<hex> unmarshal   R reset   K clone
+//
+//	S:<path>:<num>:<hex>  assign field num of the message at path from the message encoded by hex (cleared when hex does not set it)
+//	Z size   M marshal   T marshal-to(make(Size()))   RS runtime size   U:<hex> unmarshal   R reset   K clone
+//
 // Marshal-like results are printed as <bytes>/<bytes of marshaling a fresh deep copy>.
 func doHistory(full string, ops []string) string {
 	m, err := newMessage(full)
@@ -78,6 +86,11 @@ func doHistory(full string, ops []string) string {
 				}
 				num, _ := strconv.Atoi(f[2])
 				fd := target.Descriptor().Fields().ByNumber(protoreflect.FieldNumber(num))
+				if fd == nil {
+					if xt, err := protoregistry.GlobalTypes.FindExtensionByNumber(target.Descriptor().FullName(), protoreflect.FieldNumber(num)); err == nil {
+						fd = xt.TypeDescriptor()
+					}
+				}
 				if fd == nil {
 					return "nopath"
 				}
